@@ -262,6 +262,10 @@ fn gen_c02(seed: u64, idx: usize, tier: Tier) -> GitScenario {
         let mut g = HistGen::new(&mut rng, model, dirs, prot);
         g.long_names = true;
         g.bulk_left = if g.rng.chance(1, 12) { 1 } else { 0 };
+        if g.bulk_left > 0 && g.rng.chance(1, 4) {
+            // 2000-2750 names: a listing of well over 64 KiB (nobody may wait for git to exit before reading it)
+            g.bulk_base = 2000;
+        }
         g.big_left = if g.rng.chance(1, 8) { 1 } else { 0 };
         g.allow_empty = true;
         for _ in 0..n {
